@@ -97,7 +97,22 @@ def c_pan3(unit):
     return {"fired": hits == ["B"], "good_silent": content == {"A", "B"}, "detail": [str(sorted(content)), str(hits)]}
 
 
+def c_bit(unit):
+    """bit-level abstract interpretation: get/set law (set_b keeps old payload bits) and canonical form
+    (set_a(None) leaves residual payload) are refuted on `bitbad::Pk` and proved on `bitgood::Pk`"""
+    import engine_bit
+    out = {}
+    for m in ("bitbad", "bitgood"):
+        pm = engine_bit.PlaceModel(_ctx(unit), PLACE="poscontrol::%s::Pk" % m, min_subs=2, bits=8)
+        r1 = engine_bit.bit1(_ctx(unit), pm=pm, floor=0)
+        r2 = engine_bit.bit2(_ctx(unit), pm=pm, floor=0)
+        out[m] = (r1.reports, r2.reports)
+    fired = any("|law|set_b(Some)|get_b|" in x.key for x in out["bitbad"][0]) and any("set_a(None)" in x.key for x in out["bitbad"][1])
+    good = not out["bitgood"][0] and not out["bitgood"][1]
+    return {"fired": fired, "good_silent": good, "detail": [x.msg[:160] for x in (out["bitbad"][0][:1] + out["bitbad"][1][:1])]}
+
+
 CONTROLS = {
     "PUR-1": c_pur1, "PUR-2": c_pur2, "PUR-3": c_pur3, "PAN-1": c_pan1, "CLI-1": c_cli1, "ERR-1": c_err1,
-    "FLW-guard": c_flw_guard, "SYN-1": c_syn1, "PAN-3": c_pan3,
+    "FLW-guard": c_flw_guard, "SYN-1": c_syn1, "PAN-3": c_pan3, "BIT": c_bit,
 }
